@@ -50,6 +50,8 @@ def termCause (style : String) (code : Nat) (reason : Bytes) : Option Result.Cau
   else if style == "capsule_long" then
     ofDriver (Worker.connectRun (capsuleWith (be32Bytes code ++ List.replicate 1025 0x72)) .open_)
   else if style == "capsule_bad_utf8" then ofDriver (Worker.connectRun (capsuleWith (be32Bytes code ++ [0xff, 0xfe])) .open_)
+  else if style == "ctrl_more_settings" then
+    ofDriver (Worker.controlRun (stdSettingsFrame ++ stdSettingsFrame ++ stdSettingsFrame) .open_ none).2
   else if style == "ctrl_reset" then ofDriver (Worker.controlRun stdSettingsFrame .reset none).2
   else if style == "ctrl_fin" then ofDriver (Worker.controlRun stdSettingsFrame .fin none).2
   else if style == "quic_close" then some (.peerQuicClose code reason)
